@@ -70,7 +70,19 @@ def units():
                 h.elaborate(m)
             return m
         return mk
+    # units with DIRECTED ports: any two ports may be the series pair, whatever their directions
+    def dmod():
+        m = h.Module(name="DirUnit")
+        m.i1, m.i2 = h.Input(), h.Input()
+        m.o1, m.o2 = h.Output(), h.Output()
+        m.io = h.Inout()
+        m.e = h.ExternalModule(name="U5d", port_list=[h.Inout(name=n_) for n_ in "abcde"], desc="", domain="u")()(
+            a=m.i1, b=m.i2, c=m.o1, d=m.o2, e=m.io)
+        return m
+    ED = h.ExternalModule(name="UDir", port_list=[h.Input(name="i1"), h.Input(name="i2"), h.Output(name="o1"), h.Output(name="o2")],
+                          desc="", domain="u")
     return [("BMod", bmod(False), ["a", "z"]), ("BModE", bmod(True), ["a", "z"]),
+            ("DirMod", dmod, ["i1", "i2", "o1", "o2", "io"]), ("DirExt", lambda: ED(), ["i1", "i2", "o1", "o2"]),
             ("EI", lambda: EI(), ["i", "o", "units"]), ("EF", lambda: EF(), ["a", "units_0", "units_1", "i_0"]),
             ("R", lambda: h.R(r=1), ["p", "n"]), ("Nmos", lambda: h.Nmos(), ["d", "g", "s", "b"]),
             ("E3", lambda: E3(), ["a", "b", "c"]), ("Mod", lambda: Mod, ["x", "y"]),
